@@ -1182,17 +1182,19 @@ def oracle_outcomes(ms: MapSpec, oracles: list, domain: str, path_part: str, met
 # ====================================================================== C03 check
 PID = "C03"
 CLAIM = dict(
-    text="Coq theorems over an executable model of werkzeug.routing matching (Rule._parse_rule parts and Weighting over the "
-         "C03 rule grammar, StateMachineMatcher.add/update/_match as a generic transition tree, converters, MapAdapter.match): "
-         "soundness (a reported match or slash / merged-slash redirect is justified by a rule of the map that admits the path "
-         "with exactly the converted arguments), completeness and priority as far as listed in the evidence. Tied to the code "
-         "by regenerated converter regexes / weights / decision functions and statement pins (coq/C03/Gen.v) and by differential "
-         "execution of the extracted model against werkzeug on maps x insertion orders x paths, with compiled-part and "
-         "transition-tree checkpoints and an independent per-rule-regex + specificity-order oracle.",
-    note="Trusted: Coq kernel; translator tools/c03.py; ExtrOcamlBasic extraction + driver; converter regex languages are "
-         "hand-written predicates (regex texts pinned by Gen.v, validated differentially); float() and uuid.UUID() values are carried "
-         "as text; list.sort stability modelled by insertion sort; rules outside the C03 grammar (several converters per segment, "
-         "path converter before the last segment, '//' in rules, duplicate variable names, redirect_to) are outside the model.",
+    text="Coq theorems (Qed, closed under the global context) over an executable model of werkzeug.routing matching - Rule._parse_rule "
+         "parts and Weighting over the C03 rule grammar, StateMachineMatcher.add/update/_match as a generic transition tree, converter "
+         "languages and to_python, MapAdapter.match: C03_sound / C03_redirect_sound (a reported match or slash / merged-slash redirect is "
+         "justified by a rule of the map that admits the path with exactly the converted arguments), C03_complete (the outcome is classified "
+         "exactly by what the rules admit: 404 only when no rule serves the path, 405 with exactly the methods of the rules admitting it for "
+         "another method), C03_priority / C03_priority_any_order (the reported rule is minimal for the documented, insertion-order independent "
+         "specificity order among the serving candidates). Tied to the code by regenerated converter regexes / weights / decision functions "
+         "and statement pins (coq/C03/Gen.v) and by differential execution of the extracted model against werkzeug on maps x every insertion "
+         "order x paths x methods, with compiled-part and transition-tree checkpoints and an independent per-rule-regex + specificity-order oracle.",
+    note="Trusted: Coq kernel; translator tools/c03.py; ExtrOcamlBasic extraction + driver; converter regex languages are hand-written "
+         "predicates (regex texts pinned by Gen.v, validated differentially); float() and uuid.UUID() values are carried as text; list.sort "
+         "stability modelled by insertion sort; rules outside the C03 grammar (several converters per segment, path converter before the last "
+         "segment, '//' in rules, duplicate variable names, redirect_to) are outside the model; C03_complete assumes merge_slashes set at map level.",
     design="6/C03")
 
 SAFE = "!$&'()*+,/:;=@"
@@ -1402,7 +1404,7 @@ def run(chk: Check) -> None:
     quick = chk.tier == "quick"
     ad = Adapter()
     lines, expect, meta = [], [], []
-    run_cases(chk, [(ms, paths, meths, ad) for ms, paths, meths in corpus_c03()], "corpus", lines, expect, meta)
+    run_cases(chk, load_corpus("C03"), "corpus", lines, expect, meta)
     # maps of 1..4 rules: every insertion order; 5..6 rules: four orders
     n_small = 260 if quick else 4000
     n_big = 60 if quick else 900
@@ -1426,7 +1428,7 @@ def main(chk: Check) -> None:
     except px.Unsupported as e:
         chk.broken("translator", "C03/Gen.v", str(e))
     chk.forbidden_scan()
-    if chk.coq_make(["C03/Proofs.vo", "C03/Extract.vo"]):
+    if chk.coq_make(["C03/Proofs.vo", "C03/PrioProofs.vo", "C03/Extract.vo"]):
         chk.audit_props("C03/Props.v")
     else:
         chk.cov["obligations"] += 1
@@ -1476,3 +1478,62 @@ def replay(rep: dict) -> int:
         print("observed now:", type(e).__name__, getattr(e, "new_url", ""), getattr(e, "valid_methods", ""))
     print("observed when the replay was written:", inp.get("observed"))
     return 0
+
+
+# ---------------------------------------------------------------- corpus files (corpus/<PID>/*.json), run first
+def spec_to_json(ms: MapSpec) -> dict:
+    from dataclasses import asdict
+    return asdict(ms)
+
+
+def _conv_from(d):
+    return None if d is None else Conv(kind=d["kind"], exact=d["exact"], mn=d["mn"], mx=d["mx"], fixed=d["fixed"], signed=d["signed"],
+                                        items=tuple(d["items"]))
+
+
+def _seg_from(d):
+    return Seg(lit=d["lit"], pre=d["pre"], conv=_conv_from(d["conv"]), name=d["name"], post=d["post"])
+
+
+def spec_from_json(d: dict) -> MapSpec:
+    rules = []
+    for r in d["rules"]:
+        rules.append(RuleSpec(idx=r["idx"], endpoint=r["endpoint"], segs=tuple(_seg_from(s) for s in r["segs"]), tail=r["tail"],
+                              branch=r["branch"], methods=None if r["methods"] is None else tuple(r["methods"]), strict=r["strict"],
+                              merge=r["merge"], websocket=r["websocket"], alias=r["alias"],
+                              defaults=tuple((k, v) for k, v in r["defaults"]), dom=_seg_from(r["dom"])))
+    return MapSpec(rules=tuple(rules), strict=d["strict"], merge=d["merge"], redirect_defaults=d["redirect_defaults"],
+                   host_matching=d["host_matching"])
+
+
+def load_corpus(pid: str):
+    """[(MapSpec, paths, methods, Adapter)] from corpus/<pid>/*.json"""
+    import glob
+    import json
+    from .vlib import VERIF
+    out = []
+    for f in sorted(glob.glob(os.path.join(VERIF, "corpus", pid, "*.json"))):
+        with open(f, encoding="utf-8") as fh:
+            d = json.load(fh)
+        for c in d.get("cases", []):
+            a = c.get("adapter") or {}
+            q = a.get("query")
+            if isinstance(q, list):
+                q = tuple(tuple(x) for x in q)
+            out.append((spec_from_json(c["map"]), c["paths"], c["methods"],
+                        Adapter(scheme=a.get("scheme", "http"), server=a.get("server", "example.com"), script=a.get("script", "/"),
+                                subdomain=a.get("subdomain"), query=q)))
+    return out
+
+
+def write_corpus(pid: str, name: str, what: str, cases) -> None:
+    import json
+    from .vlib import VERIF
+    os.makedirs(os.path.join(VERIF, "corpus", pid), exist_ok=True)
+    out = {"property": pid, "what": what, "cases": []}
+    for ms, paths, meths, ad in cases:
+        out["cases"].append({"map": spec_to_json(ms), "rules": [r.string() for r in ms.rules], "paths": paths, "methods": meths,
+                             "adapter": {"scheme": ad.scheme, "server": ad.server, "script": ad.script, "subdomain": ad.subdomain,
+                                         "query": ad.query}})
+    with open(os.path.join(VERIF, "corpus", pid, name), "w", encoding="utf-8") as fh:
+        json.dump(out, fh, indent=1, ensure_ascii=False)
